@@ -109,6 +109,17 @@ def step (args : List String) : String :=
       | some c, [i] => if i < c.cc.shape.nPos then idxData c.cc c.cc.shape i else "bad-op"
       | _, _ => "bad-op"
     | none => "bad-op"
+  | "posidx" :: rest =>      -- the position an index denotes, as probe arguments: `<w|b> <code@sq>…`
+    match allNat? rest with
+    | some l => match clsOfCounts (l.take 8), l.drop 8 with
+      | some c, [i] =>
+        let sh := c.cc.shape
+        if i < sh.nPos then
+          let p := posOfIndex sh i.toUInt64
+          (if p.wtm then "w" else "b") ++ (presentMen sh.types p.sq).foldl (fun s m => s ++ s!" {manCode m}@{manSq m}") ""
+        else "bad-op"
+      | _, _ => "bad-op"
+    | none => "bad-op"
   | "legal" :: rest => legalLine rest
   | "abortmodel" :: fixed :: evs => Abort.runLine (fixed == "fixed") evs
   | _ => "bad-op"
